@@ -13,6 +13,7 @@ import (
 	"github.com/bmeg/grip/timestamp"
 	"github.com/bmeg/grip/util"
 	"github.com/jmoiron/sqlx"
+	"github.com/lib/pq"
 )
 
 const batchSize int = 100
@@ -131,19 +132,19 @@ func (g *Graph) BulkAdd(stream <-chan *gdbi.GraphElement) error {
 
 // DelVertex is not implemented in the SQL driver
 func (g *Graph) DelVertex(key string) error {
-	stmt := fmt.Sprintf("DELETE FROM %s WHERE gid='%s'", g.v, key)
+	stmt := fmt.Sprintf("DELETE FROM %s WHERE gid=%s", g.v, pq.QuoteLiteral(key))
 	_, err := g.db.Exec(stmt)
 	if err != nil {
 		return fmt.Errorf("deleting vertex: %v", err)
 	}
 
-	stmt = fmt.Sprintf(`DELETE FROM %s WHERE "from"='%s'`, g.e, key)
+	stmt = fmt.Sprintf(`DELETE FROM %s WHERE "from"=%s`, g.e, pq.QuoteLiteral(key))
 	_, err = g.db.Exec(stmt)
 	if err != nil {
 		return fmt.Errorf("deleting outgoing edges for %s: %v", key, err)
 	}
 
-	stmt = fmt.Sprintf(`DELETE FROM %s WHERE "to"='%s'`, g.e, key)
+	stmt = fmt.Sprintf(`DELETE FROM %s WHERE "to"=%s`, g.e, pq.QuoteLiteral(key))
 	_, err = g.db.Exec(stmt)
 	if err != nil {
 		return fmt.Errorf("deleting incoming edges for %s: %v", key, err)
@@ -154,7 +155,7 @@ func (g *Graph) DelVertex(key string) error {
 
 // DelEdge is not implemented in the SQL driver
 func (g *Graph) DelEdge(key string) error {
-	stmt := fmt.Sprintf("DELETE FROM %s WHERE gid='%s'", g.e, key)
+	stmt := fmt.Sprintf("DELETE FROM %s WHERE gid=%s", g.e, pq.QuoteLiteral(key))
 	_, err := g.db.Exec(stmt)
 	if err != nil {
 		return fmt.Errorf("deleting edge: %v", err)
@@ -173,9 +174,9 @@ func (g *Graph) GetTimestamp() string {
 
 // GetVertex loads a vertex given an id. It returns a nil if not found.
 func (g *Graph) GetVertex(gid string, load bool) *gdbi.Vertex {
-	q := fmt.Sprintf(`SELECT gid, label FROM %s WHERE gid='%s'`, g.v, gid)
+	q := fmt.Sprintf(`SELECT gid, label FROM %s WHERE gid=%s`, g.v, pq.QuoteLiteral(gid))
 	if load {
-		q = fmt.Sprintf(`SELECT * FROM %s WHERE gid='%s'`, g.v, gid)
+		q = fmt.Sprintf(`SELECT * FROM %s WHERE gid=%s`, g.v, pq.QuoteLiteral(gid))
 	}
 	vrow := &row{}
 	err := g.db.QueryRowx(q).StructScan(vrow)
@@ -193,9 +194,9 @@ func (g *Graph) GetVertex(gid string, load bool) *gdbi.Vertex {
 
 // GetEdge loads an edge  given an id. It returns a nil if not found.
 func (g *Graph) GetEdge(gid string, load bool) *gdbi.Edge {
-	q := fmt.Sprintf(`SELECT gid, label, "from", "to" FROM %s WHERE gid='%s'`, g.e, gid)
+	q := fmt.Sprintf(`SELECT gid, label, "from", "to" FROM %s WHERE gid=%s`, g.e, pq.QuoteLiteral(gid))
 	if load {
-		q = fmt.Sprintf(`SELECT * FROM %s WHERE gid='%s'`, g.e, gid)
+		q = fmt.Sprintf(`SELECT * FROM %s WHERE gid=%s`, g.e, pq.QuoteLiteral(gid))
 	}
 	erow := &row{}
 	err := g.db.QueryRowx(q).StructScan(erow)
@@ -251,7 +252,7 @@ func (g *Graph) VertexLabelScan(ctx context.Context, label string) chan string {
 	o := make(chan string, 100)
 	go func() {
 		defer close(o)
-		q := fmt.Sprintf("SELECT gid FROM %s WHERE label='%s'", g.v, label)
+		q := fmt.Sprintf("SELECT gid FROM %s WHERE label=%s", g.v, pq.QuoteLiteral(label))
 		rows, err := g.db.QueryxContext(ctx, q)
 		if err != nil {
 			log.WithFields(log.Fields{"error": err}).Error("VertexLabelScan: QueryxContext")
@@ -322,7 +323,7 @@ func (g *Graph) GetVertexChannel(ctx context.Context, reqChan chan gdbi.ElementL
 				if batch[i].IsSignal() {
 					signals = append(signals, batch[i])
 				} else {
-					idBatch = append(idBatch, fmt.Sprintf("'%s'", batch[i].ID))
+					idBatch = append(idBatch, pq.QuoteLiteral(batch[i].ID))
 				}
 			}
 			if len(idBatch) > 0 {
@@ -385,7 +386,7 @@ func (g *Graph) GetOutChannel(ctx context.Context, reqChan chan gdbi.ElementLook
 				if batch[i].IsSignal() {
 					signals = append(signals, batch[i])
 				} else {
-					idBatch = append(idBatch, fmt.Sprintf("'%s'", batch[i].ID))
+					idBatch = append(idBatch, pq.QuoteLiteral(batch[i].ID))
 					batchMap[batch[i].ID] = append(batchMap[batch[i].ID], batch[i])
 					batchMapReturnCount[batch[i].ID] = 0
 				}
@@ -427,7 +428,7 @@ func (g *Graph) GetOutChannel(ctx context.Context, reqChan chan gdbi.ElementLook
 				if len(edgeLabels) > 0 {
 					labels := make([]string, len(edgeLabels))
 					for i := range edgeLabels {
-						labels[i] = fmt.Sprintf("'%s'", edgeLabels[i])
+						labels[i] = pq.QuoteLiteral(edgeLabels[i])
 					}
 					q = fmt.Sprintf("%s AND %s.label IN (%s)", q, g.e, strings.Join(labels, ", "))
 				}
@@ -494,7 +495,7 @@ func (g *Graph) GetInChannel(ctx context.Context, reqChan chan gdbi.ElementLooku
 				if batch[i].IsSignal() {
 					signals = append(signals, batch[i])
 				} else {
-					idBatch = append(idBatch, fmt.Sprintf("'%s'", batch[i].ID))
+					idBatch = append(idBatch, pq.QuoteLiteral(batch[i].ID))
 					batchMap[batch[i].ID] = append(batchMap[batch[i].ID], batch[i])
 					batchMapReturnCount[batch[i].ID] = 0
 				}
@@ -536,7 +537,7 @@ func (g *Graph) GetInChannel(ctx context.Context, reqChan chan gdbi.ElementLooku
 				if len(edgeLabels) > 0 {
 					labels := make([]string, len(edgeLabels))
 					for i := range edgeLabels {
-						labels[i] = fmt.Sprintf("'%s'", edgeLabels[i])
+						labels[i] = pq.QuoteLiteral(edgeLabels[i])
 					}
 					q = fmt.Sprintf("%s AND %s.label IN (%s)", q, g.e, strings.Join(labels, ", "))
 				}
@@ -603,7 +604,7 @@ func (g *Graph) GetOutEdgeChannel(ctx context.Context, reqChan chan gdbi.Element
 				if batch[i].IsSignal() {
 					signals = append(signals, batch[i])
 				} else {
-					idBatch = append(idBatch, fmt.Sprintf("'%s'", batch[i].ID))
+					idBatch = append(idBatch, pq.QuoteLiteral(batch[i].ID))
 					batchMap[batch[i].ID] = append(batchMap[batch[i].ID], batch[i])
 					batchMapReturnCount[batch[i].ID] = 0
 				}
@@ -633,7 +634,7 @@ func (g *Graph) GetOutEdgeChannel(ctx context.Context, reqChan chan gdbi.Element
 				if len(edgeLabels) > 0 {
 					labels := make([]string, len(edgeLabels))
 					for i := range edgeLabels {
-						labels[i] = fmt.Sprintf("'%s'", edgeLabels[i])
+						labels[i] = pq.QuoteLiteral(edgeLabels[i])
 					}
 					q = fmt.Sprintf("%s AND %s.label IN (%s)", q, g.e, strings.Join(labels, ", "))
 				}
@@ -700,7 +701,7 @@ func (g *Graph) GetInEdgeChannel(ctx context.Context, reqChan chan gdbi.ElementL
 				if batch[i].IsSignal() {
 					signals = append(signals, batch[i])
 				} else {
-					idBatch = append(idBatch, fmt.Sprintf("'%s'", batch[i].ID))
+					idBatch = append(idBatch, pq.QuoteLiteral(batch[i].ID))
 					batchMap[batch[i].ID] = append(batchMap[batch[i].ID], batch[i])
 					batchMapReturnCount[batch[i].ID] = 0
 				}
@@ -730,7 +731,7 @@ func (g *Graph) GetInEdgeChannel(ctx context.Context, reqChan chan gdbi.ElementL
 				if len(edgeLabels) > 0 {
 					labels := make([]string, len(edgeLabels))
 					for i := range edgeLabels {
-						labels[i] = fmt.Sprintf("'%s'", edgeLabels[i])
+						labels[i] = pq.QuoteLiteral(edgeLabels[i])
 					}
 					q = fmt.Sprintf("%s AND %s.label IN (%s)", q, g.e, strings.Join(labels, ", "))
 				}
